@@ -270,6 +270,15 @@ class MType:
         return self.ctor(*a, **k)
 
 
+# library answers given during the current evaluation that differ from what the name of the attribute suggests (message text only)
+_LIB_NOTES = []
+
+
+def _lib_notes(a):
+    n = getattr(a, "lib_notes", None)
+    return " [%s]" % "; ".join(n) if n else ""
+
+
 class MDtype:
     """numpy dtype: plain (order character + type code), sub-array (base, shape) or structured (ordered fields)"""
 
@@ -390,6 +399,13 @@ class MDtype:
             raise _Raised("no field %r" % idx, "KeyError")
         raise _Unrec("dtype[%r]" % (idx,))
 
+    def _isnative(self):
+        if self.fields is not None:
+            return all(d._isnative() for _, d in self.fields)
+        if self.sub is not None:
+            return True
+        return _resolve(self.order, self.host) in (None, "L" if self.host else "B")
+
     # -- what the analysed code may read
     def m_getattr(self, name):
         plain = self.fields is None and self.sub is None
@@ -420,7 +436,16 @@ class MDtype:
         if name == "kind":
             return self.code[0] if plain else "V"
         if name == "isnative":
-            return all(_resolve(x.order, self.host) in (None, "L" if self.host else "B") for x in self.leaves())
+            # numpy: a dtype without fields answers from its own byteorder attribute, which is '|' (counted as native) for a
+            # sub-array dtype whatever the order of its items; a structured dtype asks each of its fields.  So the order of
+            # the items of a sub-array field is not seen: [('v', '>f8', (2,))].isnative is True on every host.
+            got = self._isnative()
+            if got and not all(_resolve(x.order, self.host) in (None, "L" if self.host else "B") for x in self.leaves()):
+                note = ("the code reads dtype.isnative of %r, which numpy answers with True although the items of its sub-array "
+                        "field(s) are not in host order (isnative does not look inside sub-array fields)" % (self,))
+                if note not in _LIB_NOTES:
+                    _LIB_NOTES.append(note)
+            return got
         if name == "newbyteorder":
             return _Fn(self.newbyteorder, "dtype.newbyteorder")
         raise _Unrec("dtype.%s is not modelled" % name)
@@ -1783,7 +1808,9 @@ def _conv_case(repo, fi, host, dtype, inplace, keep, pass_flags=True, count="pos
     """evaluate converter fi on a fresh model array; -> (status, array, result, text)"""
     a = mk_array(host, dtype, count)
     kw = {"inplace": inplace, "keep_dtype": keep} if pass_flags else {}
+    del _LIB_NOTES[:]
     st, r = _interp(repo, host).run(fi, [a], kw)
+    a.lib_notes = list(_LIB_NOTES)
     return st, a, r
 
 
@@ -1899,7 +1926,7 @@ def _bytes_in_target(repo, fi, combos, pass_flags=True):
                 if not isinstance(res, MArray):
                     return False, "%s returns %r" % (what, res)
                 if cnt == "pos" and res.buf.order() != target:
-                    return False, "%s leaves the data %s-endian" % (what, "big" if res.buf.order() == "B" else "little")
+                    return False, "%s leaves the data %s-endian%s" % (what, "big" if res.buf.order() == "B" else "little", _lib_notes(a))
                 if not keep and not _declares(res, target):
                     return False, "%s returns an array whose dtype %r does not declare the requested (%s-endian) order" % (what, res.dtype, "big" if target == "B" else "little")
         if unrec is not None:
@@ -2205,7 +2232,7 @@ def r16_6(chk, repo, rule="R16.6", only=None):
                     ok = a.dtype == (d0.newbyteorder("S") if need else d0)
                     if cnt == "pos":
                         ok = ok and a.buf.swaps == (1 if need else 0) and a.consistent()
-                    agg.add(ok, what + ": caller's buffer swapped %d time(s), dtype now %r" % (a.buf.swaps, a.dtype))
+                    agg.add(ok, what + ": caller's buffer swapped %d time(s), dtype now %r%s" % (a.buf.swaps, a.dtype, _lib_notes(a)))
     _emit(chk, rule, fi.qualname + "::swap-and-flip-paired", agg, fi.where(),
           "the swap happens in the caller's buffer and the caller's dtype is flipped together with it (and neither when the data are native)")
     _note_units(chk, repo)
